@@ -919,6 +919,9 @@ class TenSym(PySym):
             res = Ten(sh, out)
             res.isbool = True
             return res
+        if isinstance(op, (ast.In, ast.NotIn)) and isinstance(b, Obj) and callable(b.__dict__.get("_contains_ev")):
+            r = bool(b._contains_ev(self, self.pyval(a)))        # a container that compares with the elements' own __eq__ (tuple semantics)
+            return r if isinstance(op, ast.In) else not r
         if isinstance(op, (ast.In, ast.NotIn)) and isinstance(b, Obj) and callable(b.__dict__.get("_contains")):
             r = bool(b._contains(self.pyval(a)))
             return r if isinstance(op, ast.In) else not r
@@ -1190,10 +1193,14 @@ class TenSym(PySym):
                     # a method of the modelled class: evaluated from its source with self bound to the model object
                     sub = TenSym(self.globals_env(), self.positive, self.funcs, parent=self)
                     posv_ = self.call_args(n)
-                    pn_ = [a_.arg for a_ in cm[m].args.posonlyargs + cm[m].args.args][1:]
+                    deco_ = {dotted(d_) for d_ in cm[m].decorator_list}
+                    all_ = [a_.arg for a_ in cm[m].args.posonlyargs + cm[m].args.args]
+                    static_ = "staticmethod" in deco_
+                    pn_ = all_ if static_ else all_[1:]
                     if len(posv_) > len(pn_) and cm[m].args.vararg is None:
                         raise Raised("the analysed path raises: TypeError (%s() takes %d positional arguments but %d were given)" % (m, len(pn_) + 1, len(posv_) + 1), "TypeError('arguments')")
-                    given_ = dict({"self": recv}, **dict(zip(pn_, posv_)), **{k.arg: self.ex(k.value) for k in n.keywords if k.arg})
+                    first_ = {} if static_ else {all_[0] if all_ else "self": (recv if "classmethod" not in deco_ else recv)}
+                    given_ = dict(first_, **dict(zip(pn_, posv_)), **{k.arg: self.ex(k.value) for k in n.keywords if k.arg})
                     if cm[m].args.vararg is not None:
                         given_[cm[m].args.vararg.arg] = tuple(posv_[len(pn_):])
                     return sub.run_fn(cm[m], **given_)
@@ -1734,6 +1741,8 @@ class TenSym(PySym):
                 return Rat(Poly.var("len(text#%d)" % _UNDEF[0]))
             if v is None or isinstance(v, (bool, int, float, Rat)):
                 raise Raised("the analysed path raises: TypeError (object of type %s has no len())" % type(v).__name__, "TypeError('len')")
+            if isinstance(v, (dict, set, frozenset)):
+                return len(v)
             raise Unsupported("len of %s" % type(v).__name__)
         if cn in ("range",):
             return list(range(*[self.concrete(self.ex(a)) for a in n.args]))
